@@ -10,6 +10,7 @@
     the contract invariant ScalingInvariants is evaluated by TLC on every trace."""
 import json, os, random, multiprocessing as mp
 from fractions import Fraction as Fr
+PMAP_TIMEOUT = int(__import__('os').environ.get('VERIF_PMAP_TIMEOUT', '300'))
 from harness import tlc, plants, soltrace
 from harness.core import Check
 from harness.checks import c08
@@ -193,6 +194,56 @@ def _scaling_job(args):
         state["fresh"] = (alpha.fvec(s), alpha.fvec(z), alpha.fvec(lmbda), dims, mnl or 0, W)
         return W
     misc.compute_scaling = spy_cs
+    orig_us = misc.update_scaling
+
+    def _Wx(W):
+        Wx = {"d": alpha.fvec(W["d"]), "beta": [Fr(float(b)) for b in W["beta"]], "v": [alpha.fvec(v) for v in W["v"]],
+              "r": [alpha.fvec(r) for r in W["r"]], "rti": [alpha.fvec(r) for r in W["rti"]]}
+        if "dnl" in W:
+            Wx["dnl"] = alpha.fvec(W["dnl"])
+        return Wx
+
+    def spy_us(W, lmbda, s, z):
+        """documented contract of update_scaling: on entry s, z hold the new iterates in the CURRENT scaling (nonlinear, 'l', 'q'
+        blocks: W^-T st and W zt; 's' blocks: factors Ls, Lz with W^-T st = Ls Ls', W zt = Lz Lz'); on exit W zt = W^-T st = lmbda"""
+        mnl = len(W["dnl"]) if "dnl" in W else 0
+        d = {"l": len(W["d"]), "q": [len(v) for v in W["v"]], "s": [r.size[0] for r in W["r"]]}
+        Wold = _Wx(W)
+        sv, zv = alpha.fvec(s), alpha.fvec(z)
+        def unfactor(v):
+            out = list(v)
+            o = mnl + d["l"] + sum(d["q"])
+            for m in d["s"]:
+                L = [[v[o + j * m + i] for j in range(m)] for i in range(m)]
+                for j in range(m):
+                    for i in range(m):
+                        out[o + j * m + i] = sum(L[i][t] * L[j][t] for t in range(m))
+                o += m * m
+            return out
+        s_sc, z_sc = unfactor(sv), unfactor(zv)
+        st = alpha.scale_exact(s_sc, Wold, d, mnl, trans=True)              # st = W^T (W^-T st)
+        zt = alpha.scale_exact(z_sc, Wold, d, mnl, inv=True)                # zt = W^-1 (W zt)
+        orig_us(W, lmbda, s, z)
+        Wnew = _Wx(W)
+        lm = alpha.fvec(lmbda)
+        Wz = alpha.scale_exact(zt, Wnew, d, mnl)
+        Wts = alpha.scale_exact(st, Wnew, d, mnl, trans=True, inv=True)
+        nlq = mnl + d["l"] + sum(d["q"])
+        mag = 1 + max([abs(a) for a in Wz + Wts] + [Fr(0)])
+        tol = Fr(1, 10 ** 8) * mag
+        ok = all(abs(Wz[i] - lm[i]) <= tol and abs(Wts[i] - lm[i]) <= tol for i in range(nlq))
+        o, o2 = nlq, nlq
+        for m in d["s"]:
+            for j in range(m):
+                for i in range(j, m):
+                    want = lm[o2 + i] if i == j else Fr(0)
+                    if abs(Wz[o + j * m + i] - want) > tol or abs(Wts[o + j * m + i] - want) > tol:
+                        ok = False
+            o += m * m; o2 += m
+        if not ok:
+            state.setdefault("bad", []).append("update:Wz!=lambda")
+        state["updates"] = state.get("updates", 0) + 1
+    misc.update_scaling = spy_us
 
     def check_w(W, mnl):
         dims = None
@@ -233,7 +284,8 @@ def _scaling_job(args):
             tr, info = solvedrv.run_nl(I, entry=I["entry"], check_w=check_w, **cfg)
     finally:
         misc.compute_scaling = orig_cs
-    return {"kind": kind, "trace": tr, "bad": sorted(set(state.get("bad", []))), "cfg": cfg, "status": info["status"],
+        misc.update_scaling = orig_us
+    return {"kind": kind, "updates": state.get("updates", 0), "trace": tr, "bad": sorted(set(state.get("bad", []))), "cfg": cfg, "status": info["status"],
             "nf": info["nf"], "dims": (I.get("dims") if isinstance(I, dict) and "dims" in I else None)}
 
 
@@ -259,8 +311,10 @@ def run(tier, seed, replay=None):
     rnd.shuffle(hs)
     nh = 12 if quick else 60
     jobs = [(I, hs[(i * nh) % len(hs):(i * nh) % len(hs) + nh] or hs[:nh], seed + i) for i, I in enumerate(inst)]
-    with mp.Pool(16) as pool:
-        res = pool.map(_job, jobs, chunksize=1)
+    from harness.core import pmap
+    res = pmap(ck, _job, jobs, "c07", timeout=PMAP_TIMEOUT, chunksize=1)
+    if res is None:
+        ck.finish()
     recs = [r for rs in res for r in rs]
     cases = []
     for r in recs:
@@ -312,8 +366,10 @@ def run(tier, seed, replay=None):
         sj.append(("coneqp", I, {"kktsolver": rnd.choice([None, "ldl"])}, seed + i))
     for i, cs in enumerate(nlsuite.make_cases(solv[:(25 if quick else 200)], rnd, per_inst=1, families=("quadcp", "quadcpl", "gp"))):
         sj.append(("nl", cs, {}, seed + i))
-    with mp.Pool(16) as pool:
-        sres = pool.map(_scaling_job, sj, chunksize=2)
+    from harness.core import pmap
+    sres = pmap(ck, _scaling_job, sj, "c07", timeout=PMAP_TIMEOUT, chunksize=2)
+    if sres is None:
+        ck.finish()
     verdict = soltrace.validate(ck, [r["trace"] for r in sres], "c07/traces")
     if verdict is None:
         ck.finish()
@@ -326,4 +382,5 @@ def run(tier, seed, replay=None):
             ck.violation("%s|scaling|%s" % (r["kind"] if r["kind"] != "nl" else "cpl", "+".join(r["bad"])),
                          "a scaling dictionary handed to the KKT solver violates %s" % r["bad"], {k: r[k] for k in ("kind", "cfg", "bad", "status")})
     ck.extra["scalings_checked"] = nfac
+    ck.extra["scaling_updates_checked"] = sum(r.get("updates", 0) for r in sres)
     ck.finish()
